@@ -40,6 +40,10 @@ def layout(it):
     if it[0] == "agg" and it[1].endswith("ops::Range"):
         st = _const(dict(it[3]).get("start"))
         return ("idx", st) if st is not None else None
+    if it[0] in ("param", "field", "index", "static"):
+        # `for x in coll` / `coll.into_iter()`: IntoIterator::into_iter is transparent to the walker, so the iterator
+        # term is the collection itself (or a parameter that already is an iterator: its items, in order)
+        return ("elem", it, 0)
     if it[0] != "call":
         return None
     nm, args = it[1], it[2]
